@@ -475,18 +475,77 @@ func ruleStaleReportsItself(c *Ctx) {
 	}
 }
 
+// fieldWrites: every instruction of fn that writes field f — a plain store or
+// a sync/atomic Store/Swap/CompareAndSwap/Add on its address — with the value
+// written (nil when it is not a single value).
+func fieldWrites(fn *ssa.Function, f *types.Var) (out []struct {
+	Ins ssa.Instruction
+	Val ssa.Value
+}) {
+	for _, b := range fn.Blocks {
+		for _, ins := range b.Instrs {
+			switch t := ins.(type) {
+			case *ssa.Store:
+				if fieldOfAddr(t.Addr) == f {
+					out = append(out, struct {
+						Ins ssa.Instruction
+						Val ssa.Value
+					}{t, t.Val})
+				}
+			case *ssa.Call:
+				c := t.Call.StaticCallee()
+				if c == nil || c.Pkg == nil || c.Pkg.Pkg.Path() != "sync/atomic" || len(t.Call.Args) < 2 || fieldOfAddr(t.Call.Args[0]) != f {
+					continue
+				}
+				switch {
+				case strings.HasPrefix(c.Name(), "Store"), strings.HasPrefix(c.Name(), "Swap"), strings.HasPrefix(c.Name(), "Add"):
+					out = append(out, struct {
+						Ins ssa.Instruction
+						Val ssa.Value
+					}{t, t.Call.Args[1]})
+				case strings.HasPrefix(c.Name(), "CompareAndSwap") && len(t.Call.Args) == 3:
+					out = append(out, struct {
+						Ins ssa.Instruction
+						Val ssa.Value
+					}{t, t.Call.Args[2]})
+				}
+			}
+		}
+	}
+	return out
+}
+
 // ruleLoadedOnceAfterSuccess: LoadRegionsOnce remembers "loaded" only after
-// the load returned without an error; a failed first load is repeated.
+// the load returned without an error; a failed first load is repeated. And
+// nothing ever forgets it again: the flag is written by LoadRegionsOnce alone
+// and only to a non-zero value — a second load from the follower's own region
+// storage would overwrite what region sync delivered (leaders, flow) with bare
+// metas of equal epoch.
 func ruleLoadedOnceAfterSuccess(c *Ctx) {
 	P := c.P
 	rule := c.Prop + "/load-prunes"
 	fn := P.Method("server/core", "Storage", "LoadRegionsOnce")
 	loaded := P.Field("server/core", "Storage", "regionLoaded")
 	lr := F(P.Func("server/core", "loadRegions"))
-	c.need(rule, fn, "regionLoaded = 1", func(x ssa.Instruction) bool {
-		st, ok := x.(*ssa.Store)
-		return ok && fieldOfAddr(st.Addr) == loaded && !isConstInt(0)(st.Val)
-	}, []Ev{newOkEv(fn, "ok(loadRegions)", callMatcher(lr))}, all, "the regions are marked as loaded only after loadRegions succeeded")
+	ws := fieldWrites(fn, loaded)
+	isSet := func(x ssa.Instruction) bool {
+		for _, w := range ws {
+			if w.Ins == x && !isConstInt(0)(w.Val) {
+				return true
+			}
+		}
+		return false
+	}
+	c.need(rule, fn, "regionLoaded = 1", isSet, []Ev{newOkEv(fn, "ok(loadRegions)", callMatcher(lr))}, all, "the regions are marked as loaded only after loadRegions succeeded")
+	for _, g := range P.Funcs {
+		if fnPkgPath(g) != modPath+"/server/core" || P.isScaffold(g) {
+			continue
+		}
+		for i, w := range fieldWrites(g, loaded) {
+			okW := g == fn && !isConstInt(0)(w.Val)
+			c.Check(okW, rule, fmt.Sprintf("write #%d of regionLoaded in %s", i+1, fnName(g)), "only LoadRegionsOnce sets the flag, and nothing clears it (regions are loaded from the region storage once per process)", P.instrPos(w.Ins), "the flag is cleared or set elsewhere: the next LoadRegionsOnce reloads over the synchronised view")
+		}
+	}
 }
 
 // ruleWeightsAlwaysWritten: a store's weights are loaded back as "the key's
@@ -633,7 +692,13 @@ func ruleRegionBackendSelection(c *Ctx) {
 func init() {
 	register("C17", "Persisted stores and regions are loaded back completely and pruned consistently", func(c *Ctx) {
 		c.Group("C17/key-format", "all store/region key builders (storage, bootstrap, weights) render ids with the same zero-padded width and segments", func() { ruleKeyFormats(c) })
-		c.Group("C17/load-prunes", "loading deletes every region the callback reports from the backend being read, pages by last id + 1 and stops only on a short page; items live under their own id's key", func() { ruleLoadAndPrune(c); ruleLoadedOnceAfterSuccess(c); ruleLoadCallbackChecked(c); ruleStaleReportsItself(c); ruleEveryRecordDelivered(c) })
+		c.Group("C17/load-prunes", "loading deletes every region the callback reports from the backend being read, pages by last id + 1 and stops only on a short page; items live under their own id's key", func() {
+			ruleLoadAndPrune(c)
+			ruleLoadedOnceAfterSuccess(c)
+			ruleLoadCallbackChecked(c)
+			ruleStaleReportsItself(c)
+			ruleEveryRecordDelivered(c)
+		})
 		c.Group("C17/weights-written", "SaveStoreWeight writes both weight keys unconditionally", func() { ruleWeightsAlwaysWritten(c) })
 		c.Group("C17/storage-errors", "no storage function reports success after a kv call whose error was not found nil", func() { ruleStorageErrorDiscipline(c) })
 		c.Group("C17/backend-selection", "load, save and delete of region records select the backend by the same useRegionStorage test", func() { ruleRegionBackendSelection(c) })
